@@ -146,7 +146,12 @@ def prepare(kind):
 # part F: framing (K1)
 
 OTHER = b"$OK#9a"
-CONTEXTS = [("none", b""), ("ack", b"+"), ("nack", b"-"), ("junk", b"x"), ("packet", OTHER)]
+JUNKS = ["x", "#", "\x03", "}", "'", "*", ":", "0"]      # the junk byte between packets is selected by VERIF_SEED
+
+
+def contexts_for(junk):
+    cs = [("none", b""), ("ack", b"+"), ("nack", b"-"), ("junk", junk.encode("latin-1")), ("packet", OTHER)]
+    return [(a, b) for a in cs for b in cs]
 
 
 class FakeTransport:
@@ -202,10 +207,19 @@ def judge_stream(log, expect):
     return "ack-wrong"
 
 
-def check_payload(p, rsp, payload, contexts, order0):
+def fkey(sym, feat, efeat):
+    """Locus of a framing failure: the symptom, refined by the payload feature where the feature is the cause."""
+    if sym == "frame-lost":
+        return "F/framing/frame-lost/" + feat
+    if sym == "payload-wrong":
+        return "F/framing/payload-wrong/" + efeat
+    return "F/framing/" + sym
+
+
+def check_payload(p, rsp, payload, contexts, order0, junk="x"):
     from vf.core import exc_key
     feat = feature(payload)
-    w = {"part": "F", "payload": payload}
+    w = {"part": "F", "payload": payload, "junk": junk}
     # the sender side: the packet must decode (reference decoder) to exactly the original payload
     p.add()
     try:
@@ -240,7 +254,7 @@ def check_payload(p, rsp, payload, contexts, order0):
         sym = judge_stream(log, expect)
         p.outcome(("F", feat, pn, sn, sym, len(log)))
         if sym:
-            p.violation("F/framing/%s/%s" % (sym, efeat if sym == "payload-wrong" else feat),
+            p.violation(fkey(sym, feat, efeat),
                         "stream %r: handler delivered %r and answered %r; expected messages %r and one '+' per packet"
                         % (stream, [e[1] for e in log if e[0] == "msg"], b"".join(e[1] for e in log if e[0] == "tx"),
                            [q for g, q in expect if g]), wc, order=order0)
@@ -266,21 +280,23 @@ def check_payload(p, rsp, payload, contexts, order0):
         sym = judge_stream(log, [(False, None), (True, payload)])
         p.outcome(("Fc", feat, pos >= n - 2, sym))
         if sym:
-            p.violation("F/framing/%s/%s" % (sym, efeat if sym == "payload-wrong" else feat),
+            p.violation(fkey(sym, feat, efeat),
                         "corrupt packet %r then intact %r: handler delivered %r and answered %r; expected only %r delivered and '-+'"
                         % (bad, wire, [e[1] for e in log if e[0] == "msg"], b"".join(e[1] for e in log if e[0] == "tx"), payload),
                         wc, order=order0)
 
 
-def all_contexts():
-    return [(a, b) for a in CONTEXTS for b in CONTEXTS]
-
-
-def f_worker(p, shard, full_len):
+def f_worker(p, shard, full_len, junk):
+    from vf.core import cpu_limit, CpuTimeout
     rsp, _ = prepare("F")
-    ctxs = all_contexts()
+    ctxs = contexts_for(junk)
     for order0, payload in shard:
-        check_payload(p, rsp, payload, ctxs if len(payload) <= full_len else ctxs[:1], order0)
+        try:
+            with cpu_limit(60):
+                check_payload(p, rsp, payload, ctxs if len(payload) <= full_len else ctxs[:1], order0, junk)
+        except CpuTimeout:
+            p.violation("F/framing/hang", "packing/feeding payload %r did not finish within 60 CPU seconds" % payload,
+                        {"part": "F", "payload": payload, "junk": junk}, order=order0)
 
 
 def payloads(maxlen):
@@ -320,8 +336,8 @@ def script_cost(script):
     return sum(SYMBOLS[x][1] for x in script)
 
 
-def user_payload(i):
-    return "#" + "abc"[i]           # one escaped character, so a re-packed retransmission would show
+def user_payload(i, esc="#"):
+    return esc + "abc"[i]           # one escaped character (chosen by VERIF_SEED), so a re-packed retransmission would show
 
 
 class Harness:
@@ -378,9 +394,9 @@ class Harness:
         r = cfg["retries"]
         if self.kind == "rsp":
             if cfg["mode"] == "seq":
-                progs = [[(i, user_payload(i)) for i in range(len(self.script))]]
+                progs = [[(i, user_payload(i, cfg.get("esc", "#"))) for i in range(len(self.script))]]
             else:
-                progs = [[(i, user_payload(i))] for i in range(max(2, len(self.script)))]
+                progs = [[(i, user_payload(i, cfg.get("esc", "#")))] for i in range(max(2, len(self.script)))]
             for ui, prog in enumerate(progs):
                 s.spawn("user%d" % ui, self._rsp_user("user%d" % ui, prog, r, sendpkt))
         else:
@@ -625,7 +641,9 @@ def judge(ex, cfg):
                tuple((c["payload"], len(c["tx"]), c["outcome"], c["timeouts"]) for c in order),
                tuple(msgs), len(client_acks), tuple(sorted(dead)),
                tuple(e[1:] for e in ev if e[0] in ("cmd-ret", "cmd-raise")))
-    # one defect, one key: keep the first violation per key
+    # one defect, one key: keep the first violation per key; the weak "returned without any ack" test is subsumed
+    if any(k == "A/nack/treated-as-ack" for k, _ in out):
+        out = [(k, w) for k, w in out if k != "A/send/returns-without-ack"]
     seen = {}
     for k, w in out:
         seen.setdefault(k, w)
@@ -660,7 +678,8 @@ TIERS = {
 LINE_TIERS = {"quick": {}, "thorough": {("rsp", "seq", 1): 2, ("rsp", "seq", 2): 1, ("rsp", "par", 1): 2, ("rsp", "par", 2): 1}}
 
 
-def configs(tier):
+def configs(tier, seed=0):
+    esc = ESCAPED[seed % len(ESCAPED)]
     out = []
     for lines, table in ((False, TIERS[tier]), (True, LINE_TIERS[tier])):
         for (harness, mode, L), bound in sorted(table.items()):
@@ -675,8 +694,8 @@ def configs(tier):
                     rs = [10]           # GdbDebugDriver._send_command uses the default budget
                 for r in rs:
                     out.append({"harness": harness, "mode": mode, "script": list(script), "retries": r,
-                                "pb": bound - c, "lines": lines})
-    out.sort(key=lambda c: (script_cost(c["script"]), len(c["script"]), c["lines"], c["harness"] != "rsp", c["mode"], c["script"], c["retries"]))
+                                "pb": bound - c, "lines": lines, "esc": esc})
+    out.sort(key=lambda c: (script_cost(c["script"]), len(c["script"]), c["lines"], c["harness"] != "rsp", c["mode"] != "seq", c["script"], c["retries"]))
     return list(enumerate(out))
 
 
@@ -752,11 +771,18 @@ def run(ctx):
     full_len = 3 if quick else 4
     ctx.note("F_payloads", len(pl))
     ctx.note("F_contexts", "all 25 (prefix, suffix) contexts for payload length <= %d, bare packet for longer ones" % full_len)
-    ctx.pmap(f_worker, list(enumerate(pl)), extra=(full_len,))
+    junk = JUNKS[ctx.seed % len(JUNKS)]
+    ctx.note("F_junk_byte", repr(junk))
+    if not quick:
+        first = ALPHABET[ctx.seed % len(ALPHABET)]
+        pl += [first + x for x in payloads(4) if len(x) == 4]
+        ctx.note("F_seed_slice", "all length-5 payloads starting with %r (bare packet + corruptions)" % first)
+    ctx.pmap(f_worker, list(enumerate(pl)), extra=(full_len, junk))
     f_evals = ctx.evaluations
     ctx.sample({"F": "payload \"a#\" -> rsp_pack -> fed as '-' + packet + '$OK#9a'", "expect": "messages ['a#', 'OK'], answers '++'"})
     # ---- A
-    cfgs = configs(ctx.tier)
+    cfgs = configs(ctx.tier, ctx.seed)
+    ctx.note("A_user_payload_escape_char", ESCAPED[ctx.seed % len(ESCAPED)])
     ctx.note("A_bounds", {"%s/%s/len%d%s" % (k + ("",)): v for k, v in TIERS[ctx.tier].items()})
     ctx.note("A_bounds_line_granular", {"%s/%s/len%d%s" % (k + ("",)): v for k, v in LINE_TIERS[ctx.tier].items()})
     ctx.note("A_configurations", len(cfgs))
@@ -777,7 +803,7 @@ def replay(w):
     if w["part"] == "F":
         rsp, _ = prepare("F")
         p = Partial()
-        check_payload(p, rsp, w["payload"], all_contexts(), 0)
+        check_payload(p, rsp, w["payload"], contexts_for(w.get("junk", "x")), 0, w.get("junk", "x"))
         if p.violations:
             k = sorted(p.violations)[0]
             return True, k + ": " + p.violations[k][1]
